@@ -185,9 +185,9 @@ theorem triples_spec : ∀ (k : Nat) (b : Bits), b.length = 3 * k →
         · exact h2 t ht
       · simp only [triples, List.map_cons, List.flatMap_cons, h3, tribitBits_tribitOf]
         rfl
-    | [], h => by simp at h; omega
-    | [_], h => by simp at h; omega
-    | [_, _], h => by simp at h; omega
+    | [], h => simp only [List.length_nil] at h; omega
+    | [_], h => simp only [List.length_cons, List.length_nil] at h; omega
+    | [_, _], h => simp only [List.length_cons, List.length_nil] at h; omega
 
 theorem bitsToTribits_length (b : Bits) (h : b.length = 144) :
     (bitsToTribits false b).length = 49 := by
@@ -360,8 +360,8 @@ theorem bitsToDibits_total (H : TablesOk) : ∀ (k : Nat) (bits : Bits), bits.le
       rcases hx with rfl | hx
       · exact hd
       · exact h3 x hx
-    | [], h => by simp at h; omega
-    | [_], h => by simp at h; omega
+    | [], h => simp only [List.length_nil] at h; omega
+    | [_], h => simp only [List.length_cons, List.length_nil] at h; omega
 
 /-- `dibits_to_points` never fails on an even number of dibit values -/
 theorem dibitsToPoints_total (H : TablesOk) : ∀ (k : Nat) (ds : List Int), ds.length = 2 * k →
@@ -385,8 +385,8 @@ theorem dibitsToPoints_total (H : TablesOk) : ∀ (k : Nat) (ds : List Int), ds.
       rcases hq with rfl | hq
       · exact hp
       · exact h3 q hq
-    | [], h, _ => by simp at h; omega
-    | [_], h, _ => by simp at h; omega
+    | [], h, _ => simp only [List.length_nil] at h; omega
+    | [_], h, _ => simp only [List.length_cons, List.length_nil] at h; omega
 
 /-! ## interleaving -/
 
@@ -479,7 +479,7 @@ theorem interleave_deinterleave (H : TablesOk) (d : List Int) (h : d.length = 98
     rw [this]
     exact List.getElem_mem _
   · rw [interleave_eq H _ (by simp [scatterP_length])]
-    congr 1
+    refine congrArg Except.ok ?_
     apply List.ext_getElem
     · simp [hM, h]
     · intro i h1 h2
@@ -498,7 +498,7 @@ theorem deinterleave_interleave (H : TablesOk) (d : List Int) (h : d.length = 98
     simp only [List.getD, List.getElem?_eq_getElem this, Option.getD_some]
     exact List.getElem_mem _
   · rw [deinterleave_eq H _ hy]
-    congr 1
+    refine congrArg Except.ok ?_
     apply List.ext_getElem
     · simp [scatterP_length, h]
     · intro j h1 h2
@@ -570,7 +570,7 @@ theorem bitsToBytes_append (c rest : Bits) (hc : c.length = 8) :
     · have := congrArg List.length h
       simp [hc] at this
   rw [dif_neg hne]
-  simp [List.take_append_of_le_length, List.drop_append_of_le_length, hc]
+  simp [hc]
 
 theorem bitsToBytes_nil : bitsToBytes [] = [] := by
   unfold bitsToBytes
@@ -613,9 +613,9 @@ theorem rev3_length : ∀ (k : Nat) (b : Bits), b.length = 3 * k → (rev3 b).le
       have := rev3_length k r (by simp at h; omega)
       simp only [rev3, triples, List.flatMap_cons, List.length_append] at this ⊢
       simp [this]; omega
-    | [], h => by simp at h; omega
-    | [_], h => by simp at h; omega
-    | [_, _], h => by simp at h; omega
+    | [], h => simp only [List.length_nil] at h; omega
+    | [_], h => simp only [List.length_cons, List.length_nil] at h; omega
+    | [_, _], h => simp only [List.length_cons, List.length_nil] at h; omega
 
 theorem triples_little : ∀ (k : Nat) (b : Bits), b.length = 3 * k →
     (triples b).map (tribitOf true) = (triples (rev3 b)).map (tribitOf false)
@@ -630,9 +630,9 @@ theorem triples_little : ∀ (k : Nat) (b : Bits), b.length = 3 * k →
       simp only [rev3, triples, List.map_cons, List.flatMap_cons, List.reverse_cons,
         List.reverse_nil, List.nil_append, List.cons_append, this]
       rfl
-    | [], h => by simp at h; omega
-    | [_], h => by simp at h; omega
-    | [_, _], h => by simp at h; omega
+    | [], h => simp only [List.length_nil] at h; omega
+    | [_], h => simp only [List.length_cons, List.length_nil] at h; omega
+    | [_, _], h => simp only [List.length_cons, List.length_nil] at h; omega
 
 /-- a little-endian bitarray is encoded as the block with every 3-bit group reversed -/
 theorem encodeEndian_little (b : Bits) (h : b.length = 144) :
